@@ -693,7 +693,9 @@ def gen_use_cases(real, rng, quick):
             ([L, R, ("w", "h2"), ("w", "u4@h4")], {}), ([R, ("w", "exec:h1"), ("w", "h2")], {}),
             ([L, ("w", "h2")], {"PDSH_RCMD_TYPE": "exec"}), ([L, ("w", "exec:h1,exec:h5")], {}),
             ([L, R, ("w", "exec:h1,h2,exec:u2@h3,u4@h4")], {}), ([L, ("w", "exec:h1"), ("f", "2"), ("N", None)], {}),
-            ([L, L2, ("w", "exec:h1")], {}), ([R, ("w", "exec:u9@h9,exec:h1"), L], {})]
+            ([L, L2, ("w", "exec:h1")], {}), ([R, ("w", "exec:u9@h9,exec:h1"), L], {}),
+            # the transport a target names itself is the one that is used, wherever -R / PDSH_RCMD_TYPE say otherwise
+            ([("R", "rsh"), ("w", "exec:h1"), L], {}), ([("w", "exec:h1,exec:u2@h3")], {"PDSH_RCMD_TYPE": "rsh"})]
     for opts, env in sets:
         grp = []
         for perm in itertools.permutations(opts):
